@@ -572,7 +572,7 @@ class RecordContextMatcher:
 
     def _is_allowed_callable(self, func):
         if isinstance(func, DynamicFieldtypeModule):
-            return func.path in WHITELIST
+            return func._path in WHITELIST
         return any(func is allowed for allowed in self.allowed_callables)
 
     def eval(self, node):
